@@ -52,7 +52,19 @@ def run(ctx, model_ok):
                             "translation invariant, covariant under a common factor on lengths AND eps; NOT complete — crossings through an edge/vertex of the other facet, "
                             "end points within eps of the plane, facet pairs beyond 1.5 x the largest corner distance are never reported (Stella octangula, two spikes: "
                             "self-intersecting closed meshes reported clean); NOT unit invariant (absolute eps = 1e-6: misses everything below ~1e-6 size, flags valid closed "
-                            "meshes from ~1e2 size on through float32 noise); float32 rounding itself is modelled bit for bit but no theorem is about it"]
+                            "meshes from ~1e2 size on through float32 noise); float32 rounding itself is modelled bit for bit but no theorem is about it",
+                            "check_open: 'open' is the code's own edge count (open_iff_edge_count_ne_2 unfolds the model); its reading as 'number of faces containing both end points' holds for "
+                            "faces with three distinct indices only (edge_count_eq_faces_containing); a face (a, a, b) counts its edge twice",
+                            "get_disconnected_faces_subsets returns FACE subsets (np.isin(...).all(axis=1)); model and theorems are about the vertex sets subsets_inds, the final face selection "
+                            "is compared by the mesh stream only",
+                            "orientation: propagation_consistent assumes that some consistent choice of flips exists; that every closed non-self-intersecting embedded mesh has one is not proved; "
+                            "the seed verdict is a free parameter of inwardsMask (the inwards stream hands the real is_facet_inwards verdicts to the model): no theorem says the seed verdict is "
+                            "right, so 'after reorientation all faces point outwards' is not shown",
+                            "inside test: theorem only for a mesh that is ONE tetrahedron, observers strictly inside, generic ray (tetra_interior_found_by_ray_test_partial); nothing for observers "
+                            "outside nor for any other closed mesh (boxes, prisms, hulls, unions: oracle only)",
+                            "all real-arithmetic theorems (maskInsideTrimesh, isFacetInwards, segFacet, getIntersectingTriangles) evaluate zero-area facets through x/0 = 0 where the float code "
+                            "produces NaN; the getIntersectingTriangles theorems are about rounding = id, which neither the driver (float32 only) nor the real function (always astype(float32)) executes",
+                            "'the field does not depend on face order / winding / vertex numbering': no theorem, permutation oracle only"]
 
 
 def replay(ctx, payload):
